@@ -6,8 +6,9 @@ Model of fairlearn/postprocessing: `_tradeoff_curve_utilities.py`, `_threshold_o
 Scores are exact rationals, labels are booleans (the code converts labels to int 0/1).  Everything that
 numpy would answer with nan / inf / IndexError (degenerate labels, an interpolation bracket of width 0,
 an index outside the hull) is an explicit `none`; the theorems show these branches are not taken when every
-group contains both labels.  `np.around(., 15)` before the equalized-odds arg-max and IEEE rounding are NOT
-modelled (the model is exact); see harness/props/c04.py for the tolerance rule of the correspondence.
+group contains both labels.  `np.around(., 15)` before the equalized-odds arg-max is the identity on the exact model
+(`aroundModel`, assumption stated there) and IEEE rounding is NOT modelled (the model is exact); see harness/props/c04.py
+for the tolerance rule of the correspondence.
 -/
 import FairModel.Model.Proto
 import FairModel.Generated.ThresholdTables
@@ -102,19 +103,27 @@ def sweepAux : List Row → Nat → Nat → List (Thr × Nat × Nat)
 def sweepSteps (rows : List Row) : List (Thr × Nat × Nat) :=
   (thrInitial, 0, 0) :: sweepAux (sortDesc rows) 0 0
 
-def stepCounts (nneg npos : Nat) (c0 c1 : Nat) (actual : Bool) : CM :=
+def stepCounts (nneg npos : Rat) (c0 c1 : Nat) (actual : Bool) : CM :=
   if actual then actualCounts c0 c1 nneg npos else flippedCounts c0 c1 nneg npos
 
-def stepPoints (ops : List (Bool × Bool)) (xm ym : Metric) (nneg npos : Nat) (s : Thr × Nat × Nat) : List Pt :=
+def stepPoints (ops : List (Bool × Bool)) (xm ym : Metric) (nneg npos : Rat) (s : Thr × Nat × Nat) : List Pt :=
   ops.map (fun (o : Bool × Bool) =>
     let cm := stepCounts nneg npos s.2.1 s.2.2 o.2
     { x := xm.eval cm, y := ym.eval cm, op := ⟨o.1, s.1⟩ })
 
 def operations (flip : Bool) : List (Bool × Bool) := if flip then operationsFlip else operationsNoFlip
 
-/-- the unsorted data frame of `_calculate_tradeoff_points` -/
+/-- `_get_counts(labels)` evaluated with the LIFTED expressions (`TradeoffSrc.countN / countPos / countNeg`, functions of
+    `len(labels)` and `sum(labels)`; the labels are 0/1, so `sum(labels)` is the number of positive rows) -/
+def srcCounts (rows : List Row) : Rat × Rat × Rat :=
+  let len : Rat := (rows.length : Rat)
+  let sum : Rat := (nPos rows : Rat)
+  (TradeoffSrc.countN len sum, TradeoffSrc.countPos len sum, TradeoffSrc.countNeg len sum)
+
+/-- the unsorted data frame of `_calculate_tradeoff_points`; `n_negative` / `n_positive` are the LIFTED `_get_counts`
+    expressions (`srcCounts`; `Threshold.srcCounts_eq`: they are the numbers of negative / positive rows) -/
 def rawPoints (flip : Bool) (xm ym : Metric) (rows : List Row) : List Pt :=
-  (sweepSteps rows).flatMap (stepPoints (operations flip) xm ym (nNeg rows) (nPos rows))
+  (sweepSteps rows).flatMap (stepPoints (operations flip) xm ym (srcCounts rows).2.2 (srcCounts rows).2.1)
 
 /-! ### `.sort_values(by=["x", "y"])` (stable) -/
 def colVal (c : TradeoffSrc.Col) (p : Pt) : Rat :=
@@ -137,9 +146,16 @@ def insertLex (p : Pt) : List Pt → List Pt
 
 def sortLex (pts : List Pt) : List Pt := pts.foldr insertLex []
 
+/-- the guard `if n_positive == 0 or n_negative == 0: raise ValueError(DEGENERATE_LABELS...)`: the two counts are the
+    LIFTED `_get_counts` expressions, the connective is the LIFTED one (`TradeoffSrc.degenerateGuardIsOr`) -/
+def degenerate (rows : List Row) : Bool :=
+  let c := srcCounts rows
+  if TradeoffSrc.degenerateGuardIsOr then (decide (c.2.1 = 0) || decide (c.2.2 = 0))
+  else (decide (c.2.1 = 0) && decide (c.2.2 = 0))
+
 /-- `_calculate_tradeoff_points`; `none` is the "Degenerate labels" ValueError -/
 def tradeoffPoints (flip : Bool) (xm ym : Metric) (rows : List Row) : Option (List Pt) :=
-  if nPos rows = 0 ∨ nNeg rows = 0 then none else some (sortLex (rawPoints flip xm ym rows))
+  if degenerate rows then none else some (sortLex (rawPoints flip xm ym rows))
 
 /-! ### `_filter_points_to_get_convex_hull` (Andrew's monotone chain); the stack is kept top first -/
 /-- the turn test is the expression LIFTED from the source (`TradeoffSrc.hullDrop`) -/
@@ -153,7 +169,39 @@ def hullStep (sel : List Pt) (r2 : Pt) : List Pt := r2 :: popWhile r2 sel
 
 def hullRev (pts : List Pt) : List Pt := pts.foldl hullStep []
 
-def upperHull (pts : List Pt) : List Pt := (hullRev pts).reverse
+/-! #### the same loop, computed WITH the loop shape lifted from the source
+`selected` is kept top first (the last entry of the Python list is the head): `selected[-k]` is entry `k - 1`,
+`selected.pop()` removes the head, `selected.pop(0)` the last entry.  `none` = the `IndexError` Python raises when
+`selected[-k]` is read from a list shorter than `k` (and the exhausted fuel, which `hullSrc` never reaches: it starts
+every `while` with `len(selected) + 1`, and every iteration that continues removes an entry). -/
+
+/-- `selected[-k]` -/
+def stackBack (st : List Pt) (k : Nat) : Option Pt := if k = 0 then none else st[k - 1]?
+
+/-- `selected.pop()` (`TradeoffSrc.hullPopsLast`) / `selected.pop(0)` -/
+def stackPop (st : List Pt) : List Pt := if TradeoffSrc.hullPopsLast then st.tail else st.dropLast
+
+/-- `while len(selected) >= hullMinLen: r1 = selected[-hullR1Back]; r0 = selected[-hullR0Back];
+    if <turn test>: selected.pop() else: break` -/
+def popWhileSrc (r2 : Pt) : Nat → List Pt → Option (List Pt)
+  | 0, _ => none
+  | fuel + 1, st =>
+    if st.length < TradeoffSrc.hullMinLen then some st else
+    match stackBack st TradeoffSrc.hullR1Back, stackBack st TradeoffSrc.hullR0Back with
+    | some r1, some r0 => if dropTest r0 r1 r2 then popWhileSrc r2 fuel (stackPop st) else some st
+    | _, _ => none
+
+/-- one iteration of `for r2 in points_sorted.itertuples()`: the `while`, then `selected.append(r2)` -/
+def hullStepSrc (sel : List Pt) (r2 : Pt) : Option (List Pt) :=
+  (popWhileSrc r2 (sel.length + 1) sel).map (fun st => r2 :: st)
+
+/-- `_filter_points_to_get_convex_hull` in reading order (`pd.DataFrame(selected)`) -/
+def hullSrc (pts : List Pt) : Option (List Pt) := (pts.foldlM hullStepSrc []).map List.reverse
+
+/-- the hull the fit uses.  `Threshold.hullSrc_eq` (Lemmas/ThresholdSrc.lean) proves `hullSrc pts = some (hullRev pts).reverse`
+    for the loop shape lifted from the source: the `IndexError` branch is never taken and the lifted loop is Andrew's monotone
+    chain as written above (`popWhile`) -/
+def upperHull (pts : List Pt) : List Pt := (hullSrc pts).getD []
 
 /-- `_tradeoff_curve` -/
 def tradeoffCurve (flip : Bool) (xm ym : Metric) (rows : List Row) : Option (List Pt) :=
@@ -229,6 +277,23 @@ def argmaxFirst : List Rat → Nat
   | [] => 0
   | v :: vs => argmaxAux vs 1 0 v
 
+/-- first index of the minimum (`idxmin`) -/
+def argminFirst (l : List Rat) : Nat := argmaxFirst (l.map (fun v => -v))
+
+/-- `overall_tradeoff_curve.idxmax()` of the simple-constraint method: which extremum is LIFTED (`ThresholdFitSrc.bestIsIdxmax`) -/
+def bestIndexSimple (objs : List Rat) : Nat :=
+  if ThresholdFitSrc.bestIsIdxmax then argmaxFirst objs else argminFirst objs
+
+/-- `objective_values.idxmax()` of the equalized-odds method (`ThresholdFitSrc.eoBestIsIdxmax`) -/
+def bestIndexEO (objs : List Rat) : Nat :=
+  if ThresholdFitSrc.eoBestIsIdxmax then argmaxFirst objs else argminFirst objs
+
+/-- `np.around(v, decimals)` on the EXACT model is the identity.  ASSUMPTION (stated in `Threshold.aroundModel_eq` and in the
+    `assumptions` of harness/props/c04.py, c05.py): rounding the float objective to `ThresholdFitSrc.aroundDecimals` decimals
+    only merges values that differ by float noise; the correspondence follows the implementation's choice among
+    near-ties (`force`), the optimality theorems are about the exact arg-max. -/
+def aroundModel (_decimals : Nat) (v : Rat) : Rat := v
+
 def totalRows (groups : List (List Row)) : Nat := (groups.map List.length).sum
 
 /-- the fitted rule of one group; `ign = some (p_ignore, prediction_constant)` for equalized odds -/
@@ -273,7 +338,7 @@ def fitSimple (flip : Bool) (xm ym : Metric) (N : Nat) (groups : List (List Row)
     | none => none
     | some cs =>
       let objs := cs.map (objSimple groups)
-      let iBest := force.getD (argmaxFirst objs)
+      let iBest := force.getD (bestIndexSimple objs)
       match cs[iBest]?, objs[iBest]? with
       | some best, some o => some ⟨iBest, o, best, best.map simpleRule⟩
       | _, _ => none
@@ -284,11 +349,26 @@ def minList : List Rat → Option Rat
     | none => some v
     | some m => some (if m < v then m else v)
 
+def maxList : List Rat → Option Rat
+  | [] => none
+  | v :: vs => match maxList vs with
+    | none => some v
+    | some m => some (if v < m then m else v)
+
+/-- `self._y_min = np.amin(y_values, axis=1)`: the reduction over the groups at one grid point is the LIFTED one
+    (`ThresholdFitSrc.yMinIsAmin`: `np.amin` / `np.amax`); `none` = no group -/
+def yReduce (ys : List Rat) : Option Rat := if ThresholdFitSrc.yMinIsAmin then minList ys else maxList ys
+
 def totalPos (groups : List (List Row)) : Nat := (groups.map nPos).sum
 def totalNeg (groups : List (List Row)) : Nat := (groups.map nNeg).sum
 
+/-- `n_negative = n - n_positive` of the equalized-odds method: the LIFTED expression (`ThresholdFitSrc.eoNNeg`) of
+    `n = len(labels)` and `n_positive = sum(labels)` -/
+def eoNegatives (groups : List (List Row)) : Rat :=
+  ThresholdFitSrc.eoNNeg (totalRows groups : Rat) (totalPos groups : Rat)
+
 def objEO (obj : Metric) (groups : List (List Row)) (x y : Rat) : Rat :=
-  obj.eval (eoCounts (totalNeg groups) (totalPos groups) x y)
+  obj.eval (eoCounts (eoNegatives groups) (totalPos groups) x y)
 
 /-- the diagonal test, the value on the diagonal and the quotient are LIFTED (`Generated/ThresholdFitSrc.lean`) -/
 def pIgnore (r : Interp) (yBest : Rat) : Rat :=
@@ -298,7 +378,9 @@ def pIgnore (r : Interp) (yBest : Rat) : Rat :=
 def eoRule (xBest yBest : Rat) (r : Interp) : Rule :=
   ⟨r.p0, r.op0, r.p1, r.op1, some (pIgnore r yBest, xBest)⟩
 
-/-- `_threshold_optimization_for_equalized_odds` (exact arg-max, no `np.around`) -/
+/-- `_threshold_optimization_for_equalized_odds`: the reduction behind `_y_min`, the rounding call, which extremum `idxmax`
+    takes and what `prediction_constant` is are the LIFTED definitions (`yReduce`, `aroundModel`, `bestIndexEO`,
+    `ThresholdFitSrc.predictionConstant`) -/
 def fitEO (flip : Bool) (obj : Metric) (N : Nat) (groups : List (List Row)) (force : Option Nat) :
     Option (Fit × Rat) :=
   match hullsOf flip eoXMetric eoYMetric groups with
@@ -307,14 +389,16 @@ def fitEO (flip : Bool) (obj : Metric) (N : Nat) (groups : List (List Row)) (for
     match curves hulls N with
     | none => none
     | some cs =>
-      match allSome (cs.map (fun is => minList (is.map (·.y)))) with
+      match allSome (cs.map (fun is => yReduce (is.map (·.y)))) with
       | none => none
       | some ymins =>
-        let objs := (List.range (N + 1)).zipWith (fun i y => objEO obj groups (gridVal N i) y) ymins
-        let iBest := force.getD (argmaxFirst objs)
+        let objs := (List.range (N + 1)).zipWith
+          (fun i y => aroundModel ThresholdFitSrc.aroundDecimals (objEO obj groups (gridVal N i) y)) ymins
+        let iBest := force.getD (bestIndexEO objs)
         match cs[iBest]?, objs[iBest]?, ymins[iBest]? with
         | some best, some o, some yBest =>
-          some (⟨iBest, o, best, best.map (eoRule (gridVal N iBest) yBest)⟩, yBest)
+          some (⟨iBest, o, best,
+                 best.map (eoRule (ThresholdFitSrc.predictionConstant (gridVal N iBest) yBest) yBest)⟩, yBest)
         | _, _, _ => none
 
 /-! ### `InterpolatedThresholder._pmf_predict` and expected confusion counts -/
